@@ -51,6 +51,9 @@ type Ctx struct {
 	violOrder []string
 	known     map[string]int
 	Proof     *ev.Proof
+	// SigFilter, when set, drops reports whose signature it rejects (a shared sweep serving
+	// several properties reports only what concerns c.Prop)
+	SigFilter func(sig string) bool
 }
 
 func (c *Ctx) Thorough() bool { return c.Tier == "thorough" }
@@ -78,6 +81,9 @@ func NewCtx(prop, tier string, seed uint64) *Ctx {
 // in KNOWN_FINDINGS.txt is counted and printed as KNOWN-FINDING; anything else is a violation.
 // Only the first (callers report the smallest they have) case per signature is kept.
 func (c *Ctx) Report(kind, sig, what string, replay map[string]any) {
+	if c.SigFilter != nil && !c.SigFilter(sig) {
+		return
+	}
 	c.mu.Lock()
 	defer c.mu.Unlock()
 	if c.KF.Match(c.Prop, sig) != nil {
